@@ -798,8 +798,61 @@ func c05ManyTypes(c *core.Ctx) {
 	}
 }
 
+// c05Primary: the configuration of the repository's own example — an expression interceptor that recognises a
+// custom primary (identifier R) and continues with ParseRemainingExpression — together with registered
+// operators: R must behave like any other operand next to them.
+func c05Primary(c *core.Ctx) {
+	for _, lx := range []int{2, 5, 7, 8, 9, 11} {
+		e, tab, rerr := c05GroupEnv(lx, 7)
+		if rerr != "" {
+			continue
+		}
+		e.pb.UseExpressionInterceptor(func(p *parser.Parser, next func() ast.Expression) ast.Expression {
+			if p.CurrentToken.Type == token.IDENT && p.CurrentToken.Literal == "R" {
+				return p.ParseRemainingExpression(&ast.Identifier{Token: p.CurrentToken, Value: "R"})
+			}
+			return next()
+		})
+		ops := []string{"X", "Y", "+", "*", "==", "||", "="}
+		for _, o1 := range ops {
+			for _, o2 := range ops {
+				for pos := 0; pos < 3; pos++ {
+					for _, wrap := range [][]string{nil, {"P"}, {"-"}, {"(", ")"}, {"let"}, {"f("}} {
+						if !c.Next() || c.Tick() {
+							continue
+						}
+						opnd := []string{"a", "b", "c"}
+						opnd[pos] = "R"
+						toks := []string{opnd[0], o1, opnd[1], o2, opnd[2]}
+						switch {
+						case len(wrap) == 1 && (wrap[0] == "P" || wrap[0] == "-"):
+							toks = append([]string{wrap[0]}, toks...)
+						case len(wrap) == 2:
+							toks = append(append([]string{"("}, toks...), ")")
+						case len(wrap) == 1 && wrap[0] == "f(":
+							toks = append(append([]string{"f", "("}, toks...), ")")
+						case len(wrap) == 1 && wrap[0] == "let":
+							continue // a let statement is not an expression statement for the reference
+						}
+						c.Inc("grouping_cases")
+						c.Inc("custom_primary_cases")
+						k, d := c05Compare(e, toks, tab)
+						if k == "" {
+							c.Inc("grouping_cases_agree")
+						} else if c.ShrinkOK("prim" + k) {
+							pl, _ := json.Marshal(c05Payload{Clause: "group", Toks: toks, LX: lx, LY: 7})
+							c.Violate(core.Violation{Kind: "group-" + k, Config: fmt.Sprintf("X@%d,Y@7,custom primary R via expression interceptor", lx), Case: strings.Join(toks, " "), Detail: d, Payload: pl, Size: len(toks)})
+						}
+					}
+				}
+			}
+		}
+	}
+}
+
 func c05Run(c *core.Ctx) {
 	c05Group(c)
+	c05Primary(c)
 	c05ManyTypes(c)
 	c05Long(c)
 	c05Registry(c)
